@@ -11,46 +11,119 @@ import (
 
 func ni(name string) { panic("xcrypto model: " + name + " not implemented") }
 
-func WordsToBytes(words string) (sec types.SecretKey, err error) { return sec, fmt.Errorf("not implemented") }
-func BytesToWords(sec types.SecretKey, lang string) (string, error) { return "", fmt.Errorf("not implemented") }
-func GenerateKeys(recoverKey types.SecretKey) (sk types.SecretKey, pk types.PublicKey) { ni("GenerateKeys"); return }
+func WordsToBytes(words string) (sec types.SecretKey, err error) {
+	return sec, fmt.Errorf("not implemented")
+}
+func BytesToWords(sec types.SecretKey, lang string) (string, error) {
+	return "", fmt.Errorf("not implemented")
+}
+func GenerateKeys(recoverKey types.SecretKey) (sk types.SecretKey, pk types.PublicKey) {
+	ni("GenerateKeys")
+	return
+}
 func SecretAdd(a, b types.SecretKey) (r types.SecretKey) { ni("SecretAdd"); return }
-func GetSubaddressSecretKey(main types.SecretKey, index uint32) (sub types.SecretKey) { ni("GetSubaddressSecretKey"); return }
-func GetSubaddress(keys *types.AccountKey, index uint32) (addr types.AccountAddress) { ni("GetSubaddress"); return }
-func GenerateKeyDerivation(pub types.PublicKey, sec types.SecretKey) (der types.KeyDerivation, err error) { ni("GenerateKeyDerivation"); return }
-func DeriveSubaddressPublicKey(pub types.PublicKey, derivation types.KeyDerivation, outIndex int) (derPub types.PublicKey, err error) { ni("DeriveSubaddressPublicKey"); return }
-func DeriveSecretKey(derivation types.KeyDerivation, outIndex int, sec types.SecretKey) (derSec types.SecretKey, err error) { ni("DeriveSecretKey"); return }
-func DerivePublicKey(derivation types.KeyDerivation, outIndex int, pub types.PublicKey) (derPub types.PublicKey, err error) { ni("DerivePublicKey"); return }
-func SecretKeyToPublicKey(sec types.SecretKey) (pub types.PublicKey, err error) { ni("SecretKeyToPublicKey"); return }
-func GenerateKeyImage(pub types.PublicKey, sec types.SecretKey) (ki types.KeyImage, err error) { ni("GenerateKeyImage"); return }
-func DerivationToScalar(derivation types.KeyDerivation, outIndex int) (res types.EcScalar, err error) { ni("DerivationToScalar"); return }
-func GenerateRingSignature(prefix types.Hash, keyImage types.KeyImage, pks []types.PublicKey, sec types.SecretKey, secIndex uint) (*types.Signature, error) { ni("GenerateRingSignature"); return nil, nil }
-func CheckRingSignature(prefix types.Hash, keyImage types.KeyImage, pks []types.PublicKey, sig *types.Signature) bool { ni("CheckRingSignature"); return false }
-func ScalarmultKey(p, a types.Key) (ret types.Key, err error) { ni("ScalarmultKey"); return }
-func ScalarmultBase(a types.Key) (ret types.Key) { ni("ScalarmultBase"); return }
-func SkpkGen() (sk types.Key, pk types.Key) { ni("SkpkGen"); return }
-func ScalarmultH(a types.Key) (ret types.Key) { ni("ScalarmultH"); return }
+func GetSubaddressSecretKey(main types.SecretKey, index uint32) (sub types.SecretKey) {
+	ni("GetSubaddressSecretKey")
+	return
+}
+func GetSubaddress(keys *types.AccountKey, index uint32) (addr types.AccountAddress) {
+	ni("GetSubaddress")
+	return
+}
+func GenerateKeyDerivation(pub types.PublicKey, sec types.SecretKey) (der types.KeyDerivation, err error) {
+	ni("GenerateKeyDerivation")
+	return
+}
+func DeriveSubaddressPublicKey(pub types.PublicKey, derivation types.KeyDerivation, outIndex int) (derPub types.PublicKey, err error) {
+	ni("DeriveSubaddressPublicKey")
+	return
+}
+func DeriveSecretKey(derivation types.KeyDerivation, outIndex int, sec types.SecretKey) (derSec types.SecretKey, err error) {
+	ni("DeriveSecretKey")
+	return
+}
+func DerivePublicKey(derivation types.KeyDerivation, outIndex int, pub types.PublicKey) (derPub types.PublicKey, err error) {
+	ni("DerivePublicKey")
+	return
+}
+func SecretKeyToPublicKey(sec types.SecretKey) (pub types.PublicKey, err error) {
+	ni("SecretKeyToPublicKey")
+	return
+}
+func GenerateKeyImage(pub types.PublicKey, sec types.SecretKey) (ki types.KeyImage, err error) {
+	ni("GenerateKeyImage")
+	return
+}
+func DerivationToScalar(derivation types.KeyDerivation, outIndex int) (res types.EcScalar, err error) {
+	ni("DerivationToScalar")
+	return
+}
+func GenerateRingSignature(prefix types.Hash, keyImage types.KeyImage, pks []types.PublicKey, sec types.SecretKey, secIndex uint) (*types.Signature, error) {
+	ni("GenerateRingSignature")
+	return nil, nil
+}
+func CheckRingSignature(prefix types.Hash, keyImage types.KeyImage, pks []types.PublicKey, sig *types.Signature) bool {
+	ni("CheckRingSignature")
+	return false
+}
+func ScalarmultKey(p, a types.Key) (ret types.Key, err error)      { ni("ScalarmultKey"); return }
+func ScalarmultBase(a types.Key) (ret types.Key)                   { ni("ScalarmultBase"); return }
+func SkpkGen() (sk types.Key, pk types.Key)                        { ni("SkpkGen"); return }
+func ScalarmultH(a types.Key) (ret types.Key)                      { ni("ScalarmultH"); return }
 func ZeroCommit(amount types.Lk_amount) (ret types.Key, err error) { ni("ZeroCommit"); return }
-func CheckKey(key types.PublicKey) bool { ni("CheckKey"); return false }
-func EcdhDecode(masked *types.EcdhTuple, sharedSec types.Key, shortAmount bool) bool { ni("EcdhDecode"); return false }
-func EcdhEncode(unmasked *types.EcdhTuple, sharedSec types.Key, shortAmount bool) bool { ni("EcdhEncode"); return false }
-func Scalarmult8(p types.Key) (ret types.Key, err error) { ni("Scalarmult8"); return }
-func ScAdd(a, b types.EcScalar) (ret types.Key) { ni("ScAdd"); return }
-func ScSub(a, b types.EcScalar) (ret types.Key) { ni("ScSub"); return }
-func SkGen() (ret types.Key) { ni("SkGen"); return }
+func CheckKey(key types.PublicKey) bool                            { ni("CheckKey"); return false }
+func EcdhDecode(masked *types.EcdhTuple, sharedSec types.Key, shortAmount bool) bool {
+	ni("EcdhDecode")
+	return false
+}
+func EcdhEncode(unmasked *types.EcdhTuple, sharedSec types.Key, shortAmount bool) bool {
+	ni("EcdhEncode")
+	return false
+}
+func Scalarmult8(p types.Key) (ret types.Key, err error)                  { ni("Scalarmult8"); return }
+func ScAdd(a, b types.EcScalar) (ret types.Key)                           { ni("ScAdd"); return }
+func ScSub(a, b types.EcScalar) (ret types.Key)                           { ni("ScSub"); return }
+func SkGen() (ret types.Key)                                              { ni("SkGen"); return }
 func GenC(a types.Key, amount types.Lk_amount) (ret types.Key, err error) { ni("GenC"); return }
-func AddKeys(a, b types.Key) (ret types.Key, err error) { ni("AddKeys"); return }
-func AddKeys2(a, b, B types.Key) (ret types.Key, err error) { ni("AddKeys2"); return }
-func TlvVerRctNotSemanticsSimple(rctsign *types.RctSig) bool { ni("TlvVerRctNotSemanticsSimple"); return false }
+func AddKeys(a, b types.Key) (ret types.Key, err error)                   { ni("AddKeys"); return }
+func AddKeys2(a, b, B types.Key) (ret types.Key, err error)               { ni("AddKeys2"); return }
+func TlvVerRctNotSemanticsSimple(rctsign *types.RctSig) bool {
+	ni("TlvVerRctNotSemanticsSimple")
+	return false
+}
 func TlvVerRctSimple(rctsign *types.RctSig) (error, bool) { ni("TlvVerRctSimple"); return nil, false }
-func TlvProveRangeBulletproof(amounts types.KeyV, sk types.KeyV) (b *types.Bulletproof, c types.KeyV, masks types.KeyV, err error) { ni("TlvProveRangeBulletproof"); return }
-func TlvProveRangeBulletproof128(amounts types.KeyV, sk types.KeyV) (b *types.Bulletproof, c types.KeyV, masks types.KeyV, err error) { ni("TlvProveRangeBulletproof128"); return }
-func TlvProveRctMGSimple(message types.Key, pubs types.CtkeyV, inSk types.Ctkey, a, Count types.Key, mscout *types.Key, kLRki *types.MultisigKLRki, index uint32) (sig *types.MgSig, err error) { ni("TlvProveRctMGSimple"); return }
-func TlvGetPreMlsagHash(rctsign *types.RctSig) (key types.Key, err error) { ni("TlvGetPreMlsagHash"); return }
+func TlvProveRangeBulletproof(amounts types.KeyV, sk types.KeyV) (b *types.Bulletproof, c types.KeyV, masks types.KeyV, err error) {
+	ni("TlvProveRangeBulletproof")
+	return
+}
+func TlvProveRangeBulletproof128(amounts types.KeyV, sk types.KeyV) (b *types.Bulletproof, c types.KeyV, masks types.KeyV, err error) {
+	ni("TlvProveRangeBulletproof128")
+	return
+}
+func TlvProveRctMGSimple(message types.Key, pubs types.CtkeyV, inSk types.Ctkey, a, Count types.Key, mscout *types.Key, kLRki *types.MultisigKLRki, index uint32) (sig *types.MgSig, err error) {
+	ni("TlvProveRctMGSimple")
+	return
+}
+func TlvGetPreMlsagHash(rctsign *types.RctSig) (key types.Key, err error) {
+	ni("TlvGetPreMlsagHash")
+	return
+}
 func TlvAddKeyV(a types.KeyV) (sum types.Key, err error) { ni("TlvAddKeyV"); return }
-func TlvVerBulletproof(bp *types.Bulletproof) (bool, error) { ni("TlvVerBulletproof"); return false, nil }
-func TlvVerBulletproof128(bp *types.Bulletproof) (bool, error) { ni("TlvVerBulletproof128"); return false, nil }
-func TlvGetSubaddress(keys *types.AccountKey, index uint32) (addr types.AccountAddress, err error) { ni("TlvGetSubaddress"); return }
-func TlvKeyVTest(keysie int) error { return nil }
+func TlvVerBulletproof(bp *types.Bulletproof) (bool, error) {
+	ni("TlvVerBulletproof")
+	return false, nil
+}
+func TlvVerBulletproof128(bp *types.Bulletproof) (bool, error) {
+	ni("TlvVerBulletproof128")
+	return false, nil
+}
+func TlvGetSubaddress(keys *types.AccountKey, index uint32) (addr types.AccountAddress, err error) {
+	ni("TlvGetSubaddress")
+	return
+}
+func TlvKeyVTest(keysie int) error           { return nil }
 func TlvRctSign(rctsign *types.RctSig) error { ni("TlvRctSign"); return nil }
-func TlvRctsigForTest(rctsign *types.RctSig) (*types.RctSig, error) { ni("TlvRctsigForTest"); return nil, nil }
+func TlvRctsigForTest(rctsign *types.RctSig) (*types.RctSig, error) {
+	ni("TlvRctsigForTest")
+	return nil, nil
+}
